@@ -55,6 +55,8 @@ def judge(case, rec, lib):
     rec.hist("row_intended", case.get("row"))
     rec.hist("row_by_model", ",".join(sorted(failed)) if failed else ("accept" if model.v == models.ACCEPT else model.v))
     rec.hist("outcome", "accept" if out.accepted else out.cls)
+    if case.get("extras"):
+        rec.hist("pairs_with_extra_members_by_model", model.v)
     if model.v == models.GREY:
         rec.count("grey")
         return model, out
@@ -139,6 +141,10 @@ def run_cli(spec, rec, lib):
 
 
 def run_shard(spec, rec, lib):
+    from ..gen import vocab
+
+    rootchain.EXTRA_NAMES = vocab.learn(lib.pkg_dir)["names"]
+    rec.count("member_names_learned_from_library_code", len(rootchain.EXTRA_NAMES))
     if spec.get("kind") == "cli":
         return run_cli(spec, rec, lib)
     if spec.get("kind") == "threads":
